@@ -49,3 +49,5 @@ def run(ctx, rep, tier):
         steplen.backtrack_validated(rep, F, tag, 'C15.R11')
         steplen.nn_ratio_test(rep, F, tag, 'C15.R12')
         steplen.soc_stable_root(rep, F, tag, 'C15.R13')
+        from . import c14 as _c14b, c04 as _c04b
+        _c14b.membership_definitions(_c04b._Ren(rep, 'C14.R14', 'C15.R14'), F, E, tag)
